@@ -138,3 +138,30 @@ R.contract(
     raises={"GeneticEngineError": "self.max_depth < self.grammar.distanceToTerminal[self.grammar.starting_symbol]"},
     props=["C03"],
 )
+
+# ---- construction of a depth-limited decider: the limit is validated up-front (C03) --------------------------------
+R.contract(
+    "BaseDecider.__init__",
+    file=INI,
+    inline=True,
+    params=dict(self="BaseDecider", random="RandomSource", grammar="Grammar"),
+    returns="None",
+    modifies=["self.random", "self.grammar"],
+)
+R.contract(
+    "MaxDepthDecider.__init__",
+    file=INI,
+    params=dict(self="MaxDepthDecider", random="RandomSource", grammar="Grammar", max_depth="int"),
+    defaults={"max_depth": "10"},
+    returns="None",
+    requires={"start_registered": "grammar.starting_symbol in grammar.distanceToTerminal"},
+    ensures={
+        "fields": "same(self.random, random) and same(self.grammar, grammar) and self.max_depth == max_depth",
+        "limit_is_feasible": "max_depth >= grammar.distanceToTerminal[grammar.starting_symbol]",
+    },
+    raises={"GeneticEngineError": "max_depth < grammar.distanceToTerminal[grammar.starting_symbol]"},
+    modifies=["self.random", "self.grammar", "self.max_depth"],
+    props=["C03"],
+    note="a decider object exists only for feasible limits: an infeasible limit is rejected by the constructor (up-front), "
+    "never midway through a program",
+)
